@@ -123,7 +123,13 @@ def get_use_tree(
                     # through a module that uses this one as a whole passes the
                     # ONLY list down unchanged
                     new_rename = merged_rename.get(only_name)
-                    if new_rename is None or only_name in use_dict_mod.rename_map:
+                    if new_rename is None:
+                        continue
+                    # ... or with the rename as it came down such a path, which
+                    # this USE statement translates into a name of the module
+                    # (ONLY: name => entity)
+                    translated = new_rename != rename_map.get(only_name, only_name)
+                    if only_name in use_dict_mod.rename_map and not translated:
                         continue
                     use_dict_mod.rename_map[only_name] = new_rename
                     use_dict[use_stmnt.mod_name] = use_dict_mod
